@@ -67,7 +67,7 @@ def assemble(unit, bdir):
     reports = {}
     bodies = {}
     for key, cut in unit.cuts.items():
-        ctext, rep = X.extract(cut, unit.types)
+        ctext, rep = X.extract(cut, unit.types, canaries=(key if unit.mode == 'unwound' else None))
         tag = '/*@CUT:%s@*/' % key
         if text.count(tag) != 1:
             raise X.ExtractError('template of %s must contain %s exactly once' % (unit.name, tag))
@@ -212,16 +212,22 @@ def _verify_variant(r, unit, cpath, ranges, vname, defines, bdir, tier):
     rc, out, err, dt = run(cmd, 120)
     if rc != 0:
         raise ToolError('goto-cc failed on %s: %s' % (unit.name, (out + err)[-1500:]))
-    cmd = ['goto-instrument', '--dfcc', unit.entry, '--enforce-contract', unit.enforce]
-    for g in unit.replace:
-        cmd += ['--replace-call-with-contract', g]
-    if unit.loop_contracts:
-        cmd += ['--apply-loop-contracts']
-    cmd += [gb, ib]
-    r.cmds.append(' '.join(cmd))
-    rc, out, err, dt = run(cmd, 300)
-    if rc != 0 or not os.path.exists(ib):
-        raise ToolError('goto-instrument failed on %s: %s' % (unit.name, (out + err)[-1500:]))
+    if unit.enforce is None:
+        # bounded stand-in: the contract is enforced by the harness itself
+        # (assume requires / assert ensures); measured: dfcc instrumentation + unwinding
+        # does not finish on the kernel units (DESIGN.md section 1)
+        ib = gb
+    else:
+        cmd = ['goto-instrument', '--dfcc', unit.entry, '--enforce-contract', unit.enforce]
+        for g in unit.replace:
+            cmd += ['--replace-call-with-contract', g]
+        if unit.loop_contracts:
+            cmd += ['--apply-loop-contracts']
+        cmd += [gb, ib]
+        r.cmds.append(' '.join(cmd))
+        rc, out, err, dt = run(cmd, 300)
+        if rc != 0 or not os.path.exists(ib):
+            raise ToolError('goto-instrument failed on %s: %s' % (unit.name, (out + err)[-1500:]))
     flags = list(BASE_CHECKS) + list(unit.flags)
     if unit.obj_bits:
         flags += ['--object-bits', str(unit.obj_bits)]
@@ -256,7 +262,7 @@ def _verify_variant(r, unit, cpath, ranges, vname, defines, bdir, tier):
         if st == 'SUCCESS':
             r.discharged += 1
             if len(r.samples) < 3 and ('postcondition' in name or 'loop_invariant_step' in name
-                                       or 'assigns' in name):
+                                       or 'assigns' in name or 'ensures' in p.get('description', '')):
                 r.samples.append({'obligation': name, 'description': p.get('description', '')[:160],
                                   'status': st})
         else:
@@ -276,7 +282,31 @@ def _verify_variant(r, unit, cpath, ranges, vname, defines, bdir, tier):
                             % (unit.name, vname, nl, r.loop_steps))
     # vacuity: every line of the extracted bodies for which cbmc has a coverage goal
     # must be reachable under the contract's precondition
-    if unit.cover and not r.failed:
+    if unit.cover and not r.failed and unit.mode == 'unwound':
+        cgb = os.path.join(bdir, vname + '.canary.gb')
+        cmd = ['goto-cc'] + dflags + ['-DCXC_CANARY=1', '--function', unit.entry, cpath, '-o', cgb]
+        rc, out, err, dt = run(cmd, 120)
+        if rc != 0:
+            raise ToolError('goto-cc (canary build) failed on %s: %s' % (unit.name, (out + err)[-800:]))
+        cmd = ['cbmc', '--no-malloc-may-fail', '--no-standard-checks'] + list(unit.flags) + unw + \
+              (['--object-bits', str(unit.obj_bits)] if unit.obj_bits else []) + ['--json-ui', cgb]
+        r.cmds.append(' '.join(cmd))
+        rc, out, err, dt = run(cmd, unit.timeout, os.path.join(bdir, vname + '.canary.json'))
+        cres, _, _ = _parse_cbmc_json(out)
+        if cres is None:
+            raise ToolError('canary run gave no result on %s/%s' % (unit.name, vname))
+        can = [p for p in cres if p.get('description', '').startswith('canary ')]
+        dead = [p['description'] for p in can if p.get('status') != 'FAILURE']
+        exempt = getattr(unit, 'cover_exempt', None)
+        if exempt:
+            dead = [d for d in dead if not re.search(exempt, d)]
+        r.cover = {'canaries': len(can), 'reached': len(can) - len(dead), 'unreached': dead}
+        if not can:
+            raise ToolError('vacuity: no canaries in %s/%s' % (unit.name, vname))
+        if dead:
+            raise ToolError('vacuity: blocks of the extracted body unreachable under the contract in %s/%s: %s'
+                            % (unit.name, vname, ', '.join(dead[:6])))
+    elif unit.cover and not r.failed:
         cmd = ['cbmc', '--no-malloc-may-fail'] + list(unit.flags) + unw + \
               (['--object-bits', str(unit.obj_bits)] if unit.obj_bits else []) + \
               ['--cover', 'location', '--json-ui', ib]
